@@ -12,12 +12,12 @@ from mc.run import Stats, explore
 
 ASSUME = [
     "UTC projects, default calendar; calendar day / ISO week (date.isocalendar) on the project clock",
-    "limit values dailymax {1h,1.5h,1.6h,2h,2.5h,3.5h,4h}, weeklymax {5h,7.5h,10h,10.6h,16h} (fractions of a slot in both rounding directions); resolutions {60,30,15} min",
+    "limit values dailymax {1h,1.5h,1.6h,2h,2.5h,3.5h,4h,90min,1d}, weeklymax {5h,7.5h,10h,10.6h,16h,450min,1d,0.5w} (fractions of a slot in both rounding directions; every unit: min, h, d = 8 h, w = 40 h); resolutions {60,30,15} min",
     "the whole scheduled horizon is aggregated, including the part beyond the declared project end that the scheduler adds",
     "limits count booked working time of every member of a limited group / every task below a limited task (person-time)",
 ]
-DAILY = ["1h", "1.5h", "1.6h", "2h", "2.5h", "3.5h", "4h"]
-WEEKLY = ["5h", "7.5h", "10h", "10.6h", "16h"]
+DAILY = ["1h", "1.5h", "1.6h", "2h", "2.5h", "3.5h", "4h", "90min", "1d"]
+WEEKLY = ["5h", "7.5h", "10h", "10.6h", "16h", "450min", "1d", "0.5w"]
 PLACES = ["res", "group", "grandgroup", "task", "container", "grandcontainer", "restrict", "team", "groupteam", "midslot", "midslot-group", "teampre"]
 HORIZONS = {
     # name: (start, dur, effort hours for a weekly 5h / daily 2h limit)
@@ -49,7 +49,9 @@ def universe(tier):
 
 
 def _hours(val):
-    return float(val[:-1])
+    # every unit of the language: minutes, hours, working days (8 h) and working weeks (40 h)
+    from mc.oracles import _limit_seconds
+    return _limit_seconds(val) / 3600.0
 
 
 def to_spec(it):
